@@ -70,3 +70,8 @@ claim('C11', 'evaluation of the ElasticConstants methods on generic symmetric ma
       'Decides structural necessary conditions: all 81+81 index placements of the 3x3x3x3 and 9x9 forms, the compliance weights (so that stiffness:compliance is the symmetric identity whenever s = c^-1), setter∘getter identities, '
       'the transformation law on all 81 entries and a sign-symmetric clean-up, invariance of every crystal-system constructor (all dependent-constant arms) under the generators of its rotation group, all 15 isotropic modulus pairs, '
       'normalized_as as a fixed point on each system\'s own constants, and the modulus estimates. Positive-definiteness, conditioning of the numerical inverse and tolerance behaviour are not decided.', 'DESIGN.md §6 C11')
+
+claim('C16', 'evaluation of the Miller conversion functions on symbolic indices and cells; exact rational algebra for the plane-normal branch table (all 26 zero/sign patterns) and the centering tables; finite model of the family predicates over equality patterns; sibling agreement with tools/crystalsystem',
+      'Decides structural necessary conditions: 3<->4 index maps are mutually inverse for any leading shape, denote the same Cartesian vector, refuse bad shapes/sums and keep a floating-point buffer; for every zero/sign pattern of (hkl) the two in-plane '
+      'lattice vectors satisfy the zone law, are integer (lcm covers the divisors) and give a normal along +g; the eight centering table pairs are inverse with the lattice-point determinants; reduce_indices/all_indices/fromstring on model inputs; '
+      'each family constructor\'s generic member satisfies its own predicate and is identified as that family by Box and by tools/crystalsystem. Tolerance behaviour near coincident parameters is not decided.', 'DESIGN.md §6 C16')
